@@ -22,7 +22,8 @@ RULE = ("VMDK descriptors with 1-3 extents: every kind in {FLAT, VMFS, SPARSE, V
         "read_sectors and byte reads, whole-disk read, size and sector_count. non-trivial = request crossing an extent "
         "boundary")
 ASSUMPTIONS = [
-    "extent kinds outside the statement (ZERO, VMFSRDM, VMFSRAW, FLAT with a non-zero start offset) are outside the alphabet",
+    "extent kinds outside the statement (ZERO, VMFSRDM, VMFSRAW) are outside the alphabet; the number behind a FLAT extent's file "
+    "name is the sector offset inside that file at which the extent's data begins (VMDK specification 1.1, 'extent offset')",
     "sparse extents' capacity equals the sector count declared for them in the descriptor",
     "descriptor files are UTF-8; file names do not start or end with a quote character",
     "builders as in C02 / C06",
@@ -72,6 +73,11 @@ def run_shard(shard, ctx):
             if pos:
                 ext = [["SPARSE", 24, "RW", "first"]] + ext
             run_case({"kind": "vmdk", "extents": ext + [["FLAT", 16, "RW", "last"]]}, ctx)
+        # flat extents whose guest data starts at a non-zero sector offset inside the file (device-backed extents)
+        for start, pos, sectors in itertools.product((1, 8, 4104), (0, 1, 2), (16, 40)):
+            ext = [["SPARSE", 24, "RW", "a"], ["FLAT", 24, "RW", "b"]]
+            ext.insert(pos, ["FLAT", sectors, "RW", "off", None, start])
+            run_case({"kind": "vmdk", "extents": ext}, ctx)
     elif kind == "vmdk2":
         i, k = shard["slice"]
         combos = itertools.product(itertools.product(KINDS, SIZES), repeat=2)
@@ -202,9 +208,22 @@ def _case_vmdk(case, ctx, d, buf):
     pos = 0
     for xi, (kind, sectors, access, name, *rest) in enumerate(case["extents"]):
         img, m = _extent_image(kind, sectors, xi + 1, xi, rest[0] if rest else None)
+        start = rest[1] if len(rest) > 1 else 0
+        if start:
+            # the file holds `start` sectors of other content in front of the extent's data
+            from mc.vfile import Image as _Image
+
+            shifted = _Image("flat")
+            shifted.put_pattern(0, start * 512, pattern.SLACK, 0)
+            for off, k_, pl, ln in img.ext:
+                if k_ == 0:
+                    shifted.put(off + start * 512, pl, meta=False)
+                else:
+                    shifted.put_pattern(off + start * 512, ln, pl[0], pl[1])
+            img = shifted
         fn = f"{name}-{'flat' if kind in ('FLAT', 'VMFS') else 's%03d' % (xi + 1)}.vmdk"
         img.write_to(os.path.join(d, fn))
-        lines.append((access, sectors, kind, fn, 0 if kind == "FLAT" else None))
+        lines.append((access, sectors, kind, fn, (start if kind == "FLAT" else None)))
         parts.append(m)
         pos += sectors
         bounds.append(pos)
